@@ -182,6 +182,21 @@ func NewLinearFeeFunction(maxFeeRate chainfee.SatPerKWeight,
 		start = end
 	}
 
+	// The caller-specified starting fee rate is usually the fee rate that
+	// has already been offered in a previous attempt. If it reaches the
+	// max fee rate allowed, there's nothing left to increase, so we'll use
+	// the max fee rate immediately as we do when the deadline is reached.
+	// Otherwise the zero delta below fails this attempt and the next one
+	// starts over from an estimated fee rate, which is even further below
+	// the fee rate already offered.
+	if startingFeeRate.IsSome() && start == end {
+		return &LinearFeeFunction{
+			startingFeeRate: end,
+			endingFeeRate:   end,
+			currentFeeRate:  end,
+		}, nil
+	}
+
 	// The starting and ending fee rates are in sat/kw, so we need to
 	// convert them to msat/kw by multiplying by 1000.
 	delta := btcutil.Amount(end - start).MulF64(1000 / float64(l.width))
